@@ -2,7 +2,14 @@
 Engine "agent" (DESIGN.md 7/C18, Appendix A): real client.DrummerClient / NodeHostClient on a real in-process
 dragonboat NodeHost against a scripted in-process gRPC Drummer service (harness/go/client/zz_verif_agent_test.go);
 model: coq/theories/Agent.v (+ AgentRun.v: agreement predicates and the reference NodeHost the post-state is
-compared with)."""
+compared with).
+Round-2 dimensions: (1) deliveries that arrive WHILE a batch is being executed (executor ops HANDLEBG .. HANDLEWAIT: the request
+worker on its own goroutine as in node.go, one shard of the batch blocked by a membership change without quorum; gen_overlap
+varies the sizes / positions relative to the running and to earlier batches; model steps SBegin / SEnd; theorem
+C18_once_no_aliasing for the slice-level queue); (2) join / restore requests carrying the member list Drummer really sends (the
+shard's current members) for replicas whose bootstrap record differs - membership changed since launch, launched with three
+members, joined - after StopReplica or after a restart of the whole NodeHost process on its disk (executor op RESTART, model
+step SRestart).  Scenarios that depend on real goroutine timing are re-executed once before anything is reported."""
 import itertools, json, os, time
 from vlib import *
 
@@ -39,6 +46,7 @@ class Scn:
         self.expect = []         # (text, fn(list of STATE records) -> bool): property-level expectations (monitors)
         self.once_pairs = []     # (i, j): STATE i and STATE j must be equal (nothing executed in between)
         self.recs, self.crashed, self.expect_crash = [], False, False
+        self.overlaps = []       # per REPORT made between handle_bg and handle_wait: did it arrive while the batch was running?
         self.handle_ms = 20000
         self.note = ""
 
@@ -69,8 +77,20 @@ class Scn:
     def deliver(self, plog=0):
         self.ops.append(("REPORT", 0, plog))
 
-    def handle(self):
-        self.ops.append(("HANDLE", 0))
+    def handle(self, ms=None):
+        self.ops.append(("HANDLE", 0, ms))
+
+    def handle_bg(self, ms, delay=150):
+        """HandleMasterRequests on its own goroutine (the request worker of node.go runs next to the reporter): what is delivered
+        until handle_wait() arrives WHILE the batch is being worked on"""
+        self.ops.append(("HANDLEBG", 0, ms, delay))
+
+    def handle_wait(self):
+        self.ops.append(("HANDLEWAIT", 0))
+
+    def restart(self):
+        """the NodeHost process goes away and comes back on the same disk"""
+        self.ops.append(("RESTART", 0))
 
     def settle(self):
         self.ops.append(("SETTLE", 0))
@@ -123,7 +143,13 @@ class Scn:
             elif k == "REPORT":
                 out.append("REPORT %d %d" % (o[1], o[2]))
             elif k == "HANDLE":
-                out.append("HANDLE %d %d" % (o[1], self.handle_ms))
+                out.append("HANDLE %d %d" % (o[1], o[2] if len(o) > 2 and o[2] else self.handle_ms))
+            elif k == "HANDLEBG":
+                out.append("HANDLEBG %d %d %d" % (o[1], o[2], o[3]))
+            elif k == "HANDLEWAIT":
+                out.append("HANDLEWAIT %d" % o[1])
+            elif k == "RESTART":
+                out.append("RESTART %d" % o[1])
             elif k == "SREPORT":
                 _, h, plog, logs, infos = o
                 li = ",".join("%d:%d" % p for p in logs) or "-"
@@ -256,6 +282,39 @@ def gen_real_report(ck, sid, n):
 
 FENCES_BAD = ["rel:0:-1", "rel:0:50", "abs:0"]
 
+# Drummer composes every CREATE request - launch, join AND restore - with the member list of the shard as it knows it NOW
+# (scheduler.go getCreateRequest).  For join and restore that list is not the replica's bootstrap record in general: the
+# membership changed since the launch, or the replica joined the shard (record without addresses).
+LIST_VARIANTS = ["none", "boot", "current", "other"]
+
+
+def member_lists(variant, r, boot, current):
+    """(ids, addrs) of a join / restore request for replica r; boot / current: [(replica, address token)]"""
+    if variant == "none":
+        ms = []
+    elif variant == "boot":
+        ms = list(boot)
+    elif variant == "current":
+        ms = list(current)
+    else:                       # a member was replaced meanwhile: same size as the record, other content
+        base = list(boot) if len(boot) > 1 else [(r, "h0"), (r + 1, "x7")]
+        ms = base[:-1] + [(base[-1][0] + 20, "x8")]
+    return dict(ids=[m[0] for m in ms], addrs=[m[1] for m in ms])
+
+
+def rand_lists(rng, r):
+    """member lists for join / restore requests of random batches"""
+    k = rng.randrange(5)
+    if k == 0:
+        return dict(ids=[], addrs=[])
+    if k == 1:
+        return dict(ids=[r], addrs=["h0"])
+    if k == 2:
+        return dict(ids=[r, r + 1], addrs=["h0", "x4"])
+    if k == 3:
+        return dict(ids=[r + 1, r, r + 2], addrs=["x4", "h0", "x5"])
+    return dict(ids=[r + 3], addrs=["x6"])
+
 
 def tpl(ck, sid, name):
     """template scenarios with property-level expectations (monitors)"""
@@ -281,16 +340,16 @@ def tpl(ck, sid, name):
            lambda S: run_is(i, s, r)(S) and st_members(S[i], s) == [r] and st_info(S[i], s, r) is True))
     elif name == "restore":
         sc.start(s, r); sc.stop(s, r); sc.settle(); sc.dump()
-        sc.req("CREATE", s, i=r, r=1)
-        sc.req("CREATE", s2, i=r2, r=1)
+        sc.req("CREATE", s, i=r, r=1, **rand_lists(rng, r))
+        sc.req("CREATE", s2, i=r2, r=1, **rand_lists(rng, r2))
         i = sc.round()
         E(("restore where node info exists: the replica runs again", run_is(i, s, r)))
         E(("restore without node info: nothing is started or recorded",
            lambda S: not_running(i, s2)(S) and st_info(S[i], s2, r2) is False))
     elif name == "join":
         sc.start(s2, r2, join=True); sc.stop(s2, r2); sc.settle(); sc.dump()
-        sc.req("CREATE", s, i=r, j=1)
-        sc.req("CREATE", s2, i=r2, j=1)
+        sc.req("CREATE", s, i=r, j=1, **rand_lists(rng, r))
+        sc.req("CREATE", s2, i=r2, j=1, **rand_lists(rng, r2))
         i = sc.round()
         E(("join without node info: the replica is started (joining) and recorded",
            lambda S: run_is(i, s, r)(S) and st_info(S[i], s, r) is True))
@@ -338,7 +397,7 @@ def tpl(ck, sid, name):
         # restart) or started by a join request ignores a stale ADD / DELETE exactly like a launched one
         if name == "fence-after-restore":
             sc.start(s, r); sc.stop(s, r); sc.settle(); sc.dump()
-            sc.req("CREATE", s, i=r, r=1)
+            sc.req("CREATE", s, i=r, r=1, **rand_lists(rng, r))
         else:
             sc.start(s, r, join=False); sc.stop(s, r); sc.settle(); sc.dump()
             sc.req("CREATE", s, i=r, r=1)
@@ -362,6 +421,58 @@ def tpl(ck, sid, name):
            lambda S: st_members(S[i2], s) == [r, r + 11] and st_running(S[i2], s)["cci"] > st_running(S[i0], s)["cci"]))
         E(("a delete fenced by an OLDER version on a restored replica changes nothing",
            lambda S: st_members(S[i3], s) == [r, r + 11] and st_running(S[i3], s)["cci"] == st_running(S[i2], s)["cci"]))
+    elif name.startswith("restore-members-"):
+        # a restore / join request carries the CURRENT members of the shard; the replica to bring back was bootstrapped with
+        # another list (membership changed after the launch), with a longer one, or with none (it joined): in every case the
+        # replica whose data is on the host runs again after the request.  Dimensions: bootstrap kind x membership change after
+        # launch x member list of the request (none / the bootstrap record / current members / a replaced member) x how the
+        # replica went down (StopReplica / restart of the whole NodeHost process on the same disk)
+        v = int(name.rsplit("-", 1)[1])
+        sA, sB, sC, sD, sE = rng.sample(range(1, 10), 5)
+        rA, rB, rC, rD, rE = [rng.randrange(1, 6) for _ in range(5)]
+        bootA, bootB = [(rA, "h0")], [(rB, "h0")]
+        bootC = [(rC, "h0"), (rC + 1, "x1"), (rC + 2, "x2")]
+        sc.start(sA, rA); sc.start(sB, rB); sc.start(sC, rC, peers=bootC); sc.start(sD, rD, join=True)
+        sc.settle(); sc.dump()
+        sc.req("ADD", sB, m=[rB + 10], c="rel:0:0", addrs=["x3"])
+        i1 = sc.round()
+        by_restart = v % 2 == 1
+        if by_restart:
+            sc.restart()
+        else:
+            for (x, y) in rng.sample([(sA, rA), (sB, rB), (sC, rC), (sD, rD)], 4):
+                sc.stop(x, y)
+        sc.settle(); i2 = sc.dump()
+        cur = {sA: bootA, sB: bootB + [(rB + 10, "x3")], sC: bootC, sD: [(rD, "h0"), (rD + 1, "x4")]}
+        boot = {sA: bootA, sB: bootB, sC: bootC, sD: []}
+        rep = {sA: rA, sB: rB, sC: rC, sD: rD}
+        used = {}
+        order = [sA, sB, sC, sD]
+        rng.shuffle(order)
+        for k, x in enumerate([sA, sB, sC, sD]):
+            used[x] = LIST_VARIANTS[(k + v) % 4]
+        for x in order:
+            sc.req("CREATE", x, i=rep[x], r=1, **member_lists(used[x], rep[x], boot[x], cur[x]))
+        jl = member_lists(LIST_VARIANTS[(v + 1) % 4], rE, [], [(rE, "h0"), (rE + 1, "x5")])
+        sc.req("CREATE", sE, i=rE, j=1, **jl)
+        i3 = sc.round()
+        sc.note = "went down by %s; member list of the restore request per shard: %s" % (
+            "NodeHost restart" if by_restart else "StopReplica", ", ".join("%d:%s" % (x, used[x]) for x in [sA, sB, sC, sD]))
+        E(("set-up: the fenced add changed the membership of the launched shard",
+           lambda S: st_members(S[i1], sB) == [rB, rB + 10]))
+        E(("set-up: nothing runs after the stop / restart, the data is still there",
+           lambda S: not S[i2]["shards"] and all(st_info(S[i2], x, rep[x]) is True for x in rep)))
+        what = {sA: "launched alone, membership unchanged", sB: "launched alone, a member was added since",
+                sC: "launched with three initial members", sD: "joined the shard (bootstrap record without addresses)"}
+        for x in [sA, sB, sC, sD]:
+            def fn(S, x=x):
+                a, b = st_running(S[i1], x), st_running(S[i3], x)
+                return (b is not None and b["replica"] == rep[x] and st_info(S[i3], x, rep[x]) is True
+                        and b["members"] == a["members"] and b["cci"] == a["cci"])
+            E(("restore request (member list: %s) for a replica that %s: the replica runs again, membership as before"
+               % (used[x], what[x]), fn))
+        E(("join request carrying the shard's member list: the new replica is started (joining) and recorded",
+           lambda S: run_is(i3, sE, rE)(S) and st_info(S[i3], sE, rE) is True))
     elif name == "order-kill-launch":
         sc.start(s, r); sc.start(s2, r); sc.settle(); sc.dump()
         sc.req("KILL", s, m=[r])
@@ -396,7 +507,7 @@ def tpl(ck, sid, name):
            lambda S: run_is(i, s, r2)(S) and run_is(i, s2, r)(S)))
     elif name == "once-join":
         sc.settle(); sc.dump()
-        sc.req("CREATE", s, i=r, j=1)
+        sc.req("CREATE", s, i=r, j=1, **rand_lists(rng, r))
         i = sc.round()
         sc.stop(s, r)
         sc.settle(); a = sc.dump()
@@ -414,7 +525,7 @@ def tpl(ck, sid, name):
         E(("replica started after the (void) kill request stays", run_is(b, s, r)))
     elif name == "once-restore":
         sc.start(s, r); sc.stop(s, r); sc.settle(); sc.dump()
-        sc.req("CREATE", s, i=r, r=1)
+        sc.req("CREATE", s, i=r, r=1, **rand_lists(rng, r))
         i = sc.round()
         sc.stop(s, r)
         sc.settle(); a = sc.dump()
@@ -484,7 +595,8 @@ def gen_random(ck, sid):
         if k == "run":
             sc.start(s, r); state[s].update(run=r, info={r})
         elif k == "stopped":
-            sc.start(s, r); sc.stop(s, r); state[s].update(info={r})
+            # stopped only after its election (the log index at which a later membership change lands depends on it)
+            sc.start(s, r); sc.settle(); sc.stop(s, r); state[s].update(info={r})
         elif k == "join":
             sc.start(s, r, join=True); state[s].update(run=r, info={r})
         elif k == "joinstopped":
@@ -499,54 +611,176 @@ def gen_random(ck, sid):
     for b in range(nbatches):
         created = set()
         n = rng.randrange(1, 6)
-        deliveries = 1
         for q in range(n):
             s = rng.choice(universe)
-            st = state[s]
-            kind = rng.choice(["launch", "join", "restore", "kill", "kill", "add", "add", "delete"])
-            if kind in ("add", "delete"):
-                if s in created or (s in poisoned and not timeout_scn) or (timeout_scn and s != change_shard):
-                    kind = "kill"
-            ids_known = sorted(st["info"] | ({st["run"]} if st["run"] else set()))
-            if kind == "launch":
-                cand = [x for x in range(1, 9) if x not in st["info"]]
-                r = rng.choice(cand)
-                ids = [r] if rng.random() < 0.8 else [r, r + 1]
-                sc.req("CREATE", s, i=r, ids=ids, addrs=["h0"], app=rng.choice(["kvtest", "kvtest", "concurrentkv"]))
-                st["info"].add(r)      # may be recorded
-                created.add(s)
-            elif kind == "join":
-                r = rng.choice(ids_known + [rng.randrange(1, 9)])
-                sc.req("CREATE", s, i=r, j=1)
-                st["info"].add(r)
-                created.add(s)
-            elif kind == "restore":
-                r = rng.choice(ids_known + [rng.randrange(1, 9)])
-                sc.req("CREATE", s, i=r, r=1)
-                created.add(s)
-            elif kind == "kill":
-                r = rng.choice(ids_known + ids_known + [rng.randrange(1, 9)])
-                sc.req("KILL", s, m=[r] + ([r + 1] if rng.random() < 0.2 else []))
-            elif kind == "add":
-                r = rng.choice([rng.randrange(1, 12), rng.randrange(1, 12)] + ids_known)
-                c = rng.choice(["rel:0:0", "rel:0:0", "rel:0:0"] + FENCES_BAD)
-                sc.req("ADD", s, m=[r], c=c, addrs=[rng.choice(["x1", "x2", "x3", "h0"])] + (["x4"] if rng.random() < 0.2 else []))
-                if c == "rel:0:0":
-                    poisoned.add(s)
-            elif kind == "delete":
-                r = rng.choice([rng.randrange(1, 12)] + ids_known)
-                sc.req("DELETE", s, m=[r], c=rng.choice(["rel:0:0", "rel:0:0"] + FENCES_BAD))
+            no_change = s in created or (s in poisoned and not timeout_scn) or (timeout_scn and s != change_shard)
+            rand_req(rng, sc, s, state[s], created, poisoned, no_change)
             if q < n - 1 and rng.random() < 0.15:
                 sc.deliver(rng.randrange(2))
-                deliveries += 1
         if rng.random() < 0.5:
             sc.ver({s: "rel:0:%d" % rng.choice([-1, 0, 1]) for s in universe if rng.random() < 0.6})
         sc.round(rng.randrange(2))
+        if b < nbatches - 1 and rng.random() < 0.5:
+            # state carried across a restart: replicas stopped one by one, or the whole NodeHost process restarted on its disk,
+            # before the next batch (which may restore / join / launch them again)
+            if rng.random() < 0.5:
+                sc.restart()
+                for st in state.values():
+                    st["run"] = None
+            else:
+                for s in universe:
+                    if state[s]["run"] and rng.random() < 0.6:
+                        sc.stop(s, state[s]["run"])
+                        state[s]["run"] = None
+            sc.settle(); sc.dump()
     if rng.random() < 0.5:       # nothing queued: a further HandleMasterRequests is void
         a = sum(1 for o in sc.ops if o[0] == "DUMP") - 1
         sc.handle(); sc.settle(); b2 = sc.dump()
         sc.once_pairs.append((a, b2))
     sc.note = "timeout scenario" if timeout_scn else ""
+    return sc
+
+
+def rand_req(rng, sc, s, st, created, poisoned, no_change, kinds=None):
+    """one random request for shard s (st: the generator's rough idea of the shard, only to steer)"""
+    kind = rng.choice(kinds or ["launch", "join", "restore", "kill", "kill", "add", "add", "delete"])
+    if kind in ("add", "delete") and no_change:
+        kind = "kill"
+    ids_known = sorted(st["info"] | ({st["run"]} if st["run"] else set()))
+    if kind == "launch":
+        cand = [x for x in range(1, 9) if x not in st["info"]]
+        r = rng.choice(cand)
+        ids = [r] if rng.random() < 0.8 else [r, r + 1]
+        sc.req("CREATE", s, i=r, ids=ids, addrs=["h0"], app=rng.choice(["kvtest", "kvtest", "concurrentkv"]))
+        st["info"].add(r)      # may be recorded
+        created.add(s)
+    elif kind == "join":
+        r = rng.choice(ids_known + [rng.randrange(1, 9)])
+        sc.req("CREATE", s, i=r, j=1, **rand_lists(rng, r))
+        st["info"].add(r)
+        created.add(s)
+    elif kind == "restore":
+        r = rng.choice(ids_known + ids_known + [rng.randrange(1, 9)])
+        sc.req("CREATE", s, i=r, r=1, **rand_lists(rng, r))
+        created.add(s)
+    elif kind == "kill":
+        r = rng.choice(ids_known + ids_known + [rng.randrange(1, 9)])
+        sc.req("KILL", s, m=[r] + ([r + 1] if rng.random() < 0.2 else []))
+    elif kind == "add":
+        r = rng.choice([rng.randrange(1, 12), rng.randrange(1, 12)] + ids_known)
+        c = rng.choice(["rel:0:0", "rel:0:0", "rel:0:0"] + FENCES_BAD)
+        sc.req("ADD", s, m=[r], c=c, addrs=[rng.choice(["x1", "x2", "x3", "h0"])] + (["x4"] if rng.random() < 0.2 else []))
+        if c == "rel:0:0":
+            poisoned.add(s)
+    elif kind == "delete":
+        r = rng.choice([rng.randrange(1, 12)] + ids_known)
+        sc.req("DELETE", s, m=[r], c=rng.choice(["rel:0:0", "rel:0:0"] + FENCES_BAD))
+
+
+def gen_overlap(ck, sid):
+    """A report is answered with requests WHILE HandleMasterRequests is still working on the previous batch (reporter and request
+    worker are two goroutines of node.go).  One shard of the running batch is slow: a membership change on a group that has its
+    leader but no quorum any more blocks until the context of the batch expires; the running batch still holds requests for that
+    shard behind the slow one.  Varied: size of the running batch, position of the slow request and of the requests behind it,
+    number and sizes of the deliveries arriving meanwhile relative to those positions, to the running batch and to all EARLIER
+    batches (a queue that recycles its buffer is only visible for sizes within the old capacity), content of the later batches
+    (other shards / the slow shard itself).  Judged by the model (every request executed once, per shard in order of receipt:
+    running batch first, the overlapping deliveries in the next HandleMasterRequests) and by two direct monitors."""
+    rng = ck.rng
+    sc = Scn(sid, "overlap")
+    sc.hosts(1)
+    ids = rng.sample(range(1, 10), rng.randrange(3, 6))
+    s0, fresh, others = ids[0], ids[1], ids[2:]
+    r0 = rng.randrange(1, 5)
+    state = {s0: dict(run=r0, info={r0})}
+    sc.start(s0, r0)
+    for s in others:
+        r = rng.randrange(1, 5)
+        k = rng.choice(["run", "run", "stopped", "join", "none"])
+        state[s] = dict(run=None, info=set())
+        if k == "run":
+            sc.start(s, r); state[s].update(run=r, info={r})
+        elif k == "stopped":
+            sc.start(s, r); sc.settle(); sc.stop(s, r); state[s].update(info={r})
+        elif k == "join":
+            sc.start(s, r, join=True); state[s].update(run=r, info={r})
+    sc.settle(); sc.dump()
+    poisoned = set()
+
+    def fillers(n, created):
+        for _ in range(n):
+            s = rng.choice(others)
+            rand_req(rng, sc, s, state[s], created, poisoned, s in created or s in poisoned)
+
+    # earlier batches: the slow shard loses its quorum (a member that does not exist is added); sizes vary
+    sizes = []
+    for b in range(rng.choice([1, 1, 2])):
+        created = set()
+        n = rng.choice([1, 2, 3, 4, 6])
+        at = rng.randrange(n) if b == 0 else None
+        for q in range(n):
+            if q == at:
+                sc.req("ADD", s0, m=[r0 + 10], c="rel:0:0", addrs=["x1"])
+            else:
+                fillers(1, created)
+        sizes.append(n)
+        i0 = sc.round(rng.randrange(2))
+    # the running batch: [fillers] slow [fillers] marker [fillers / more for the slow shard]
+    created = set()
+    before, between, after = rng.choice([0, 0, 1, 2]), rng.choice([0, 0, 1, 3]), rng.choice([0, 0, 1, 2])
+    fillers(before, created)
+    if rng.random() < 0.5:
+        sc.req("ADD", s0, m=[r0 + 11], c=rng.choice(["rel:0:0"] + FENCES_BAD), addrs=["x2"])
+    else:
+        sc.req("DELETE", s0, m=[rng.choice([r0 + 10, r0 + 12])], c=rng.choice(["rel:0:0"] + FENCES_BAD))
+    fillers(between, created)
+    marker = before + 1 + between            # index of the marker in the running batch
+    sc.req("KILL", s0, m=[r0])
+    tail0 = rng.choice(["", "", "join", "restore"])
+    r1 = r0 + 1 + rng.randrange(3)
+    if tail0 == "join":
+        sc.req("CREATE", s0, i=r1, j=1, **rand_lists(rng, r1))
+    elif tail0 == "restore":
+        sc.req("CREATE", s0, i=r0, r=1, **rand_lists(rng, r0))
+    fillers(after, created)
+    n1 = marker + 1 + (1 if tail0 else 0) + after
+    sc.deliver(rng.randrange(2))
+    sc.handle_bg(900, 150)
+    # deliveries while the batch is running; the first one has a size around the marker / the running batch / the earlier batches
+    ndel = rng.choice([1, 1, 2])
+    cand = sorted(set([marker, marker + 1, n1, n1 + 1, max(sizes + [n1]) + 1, 1]) - {0})
+    fresh_done = False
+    for d in range(ndel):
+        created = set()
+        n2 = rng.choice(cand) if d == 0 else rng.randrange(1, 4)
+        pos_fresh = rng.randrange(n2) if not fresh_done else None
+        for q in range(n2):
+            if q == pos_fresh:          # a request whose effect is visible whatever else happens: launch of a shard nobody touched
+                sc.req("CREATE", fresh, i=r1, ids=[r1], addrs=["h0"])
+                fresh_done = True
+            elif rng.random() < 0.35:   # the slow shard again (never a membership change: that would block the next batch too)
+                k = rng.choice(["kill", "join", "restore"])
+                if k == "kill":
+                    sc.req("KILL", s0, m=[rng.choice([r0, r1])])
+                elif k == "join":
+                    sc.req("CREATE", s0, i=r1, j=1, **rand_lists(rng, r1))
+                else:
+                    sc.req("CREATE", s0, i=r0, r=1, **rand_lists(rng, r0))
+            else:
+                fillers(1, created)
+        sc.deliver(rng.randrange(2))
+    sc.handle_wait()
+    sc.settle(); ia = sc.dump()
+    sc.handle(20000); sc.settle(); ib = sc.dump()
+    sc.handle(20000); sc.settle(); ic = sc.dump()
+    sc.once_pairs.append((ib, ic))
+    sc.note = ("running batch of %d requests (slow request at %d, kill of the slow shard's replica at %d), earlier batches %s, "
+               "deliveries while it runs: %d" % (n1, before, marker, sizes, ndel))
+    sc.expect.append(("a request received BEFORE the batch started (kill of replica %d of shard %d, behind a slow request of the same "
+                      "shard) is executed by that batch although further requests were delivered while it was running" % (r0, s0),
+                      lambda S: st_info(S[ia], s0, r0) is False and [s0, r0] not in S[ia]["logs"]))
+    sc.expect.append(("a request delivered while a batch was running (launch of shard %d) is executed by the next HandleMasterRequests"
+                      % fresh, lambda S: st_running(S[ib], fresh) is not None and st_running(S[ib], fresh)["replica"] == r1))
     return sc
 
 
@@ -700,6 +934,8 @@ def scenario_steps(sc):
     pos = 0
     pending = []
     vers = {}
+    in_bg = False
+    sc.overlaps = []
 
     def nxt(kind):
         nonlocal pos
@@ -747,6 +983,9 @@ def scenario_steps(sc):
             reports.append((local, dict(vers), o[2], rpt, True))
             steps.append("SRecv %s" % clist(pending, coq_req))
             pending = []
+            if in_bg:
+                sc.overlaps.append(bool(rpt.get("during_handle")))
+                rpt["bg_open"] = True
         elif k == "SREPORT":
             rpt = nxt("SRPT")
             if rpt is None:
@@ -764,64 +1003,62 @@ def scenario_steps(sc):
             if "err" in rec:
                 sc.handle_err = rec["err"]
             steps.append("SExec false")
+        elif k == "HANDLEBG":
+            if nxt("HANDLEBG") is None:
+                break
+            steps.append("SBegin")
+            in_bg = True
+        elif k == "HANDLEWAIT":
+            rec = nxt("HANDLE")
+            if rec is None:
+                break
+            if "err" in rec:
+                sc.handle_err = rec["err"]
+            steps.append("SEnd false")
+            in_bg = False
+        elif k == "RESTART":
+            if nxt("RESTART") is None:
+                break
+            steps.append("SRestart")
         elif k == "DUMP":
             rec = nxt("STATE")
             if rec is None:
                 break
             steps.append("SObs %s" % coq_obs(rec))
+    if in_bg:            # the process died while the background batch was running
+        steps.append("SEnd true")
     sc.complete = (pos == len(recs)) and not any(r["k"] == "EXECERR" for r in recs)
     return steps, reports
 
 
 # ------------------------------------------------------------------------------------------------ the check
-def run(ck):
-    ck.cov["rule"] = ("report rule: exhaustive table (Drummer's version older/equal/newer/shard unknown) x pending x announce flag x "
-                      "log info present for 1..2 hosted replicas (sampled for 3..4 in quick, exhaustive for 3 and 1500 samples of 4 in "
-                      "thorough) through SendNodeHostInfo on hand made NodeHostInfo values, plus real replicas (single member leader / three "
-                      "members without quorum / joined-pending / stopped) through node.go reportNodeHostInfo; request handling: template "
-                      "scenarios per decision-table row, per-shard order, two deliveries, second execution without delivery, fail-stop "
-                      "rows (process crash), and random batches of 1..5 requests over 2..4 shards mixing all kinds and fences "
-                      "(current, stale, future, 0). A case = one report or one scenario; non-trivial unless nothing is hosted / no request.")
-    proofs_ok = ck.proofs(["theories/AgentRun.vo"])
-    binp = ck.go_test_bin("client", ["client/zz_verif_agent_test.go"], tags="dragonboat_monkeytest")
-    if binp is None:
-        return
-    rng = ck.rng
-    quick = ck.tier == "quick"
-    scns = []
-    scns.append(gen_report_table(ck, "rt0"))
-    for n in ((1, 2, 3, 4) if quick else (1, 2, 3, 4) * 6):
-        scns.append(gen_real_report(ck, "rr%d" % len(scns), n))
-    reps = 1 if quick else 12
-    for rep in range(reps):
-        for name in TEMPLATES:
-            scns.append(tpl(ck, "t%d-%s" % (rep, name), name))
-    for rep in range(1 if quick else 3):
-        for name in (CRASHES if not quick or True else CRASHES[:3]):
-            scns.append(tpl(ck, "c%d-%s" % (rep, name), name))
-    for i in range(25 if quick else 700):
-        scns.append(gen_random(ck, "r%d" % i))
-    t0 = time.time()
-    params = run_executor(ck, binp, scns, "a")
-    if params is None:
-        return
-    ck.cov["executor_wall_s"] = round(time.time() - t0, 1)
-    ck.cov["params_read_from_code"] = params
-    # ---------------- collect, monitors
-    items = []          # (kind, coq term, scenario, extra)
-    kinds = {}
-    n_reports = 0
+def assess(ck, scns, final, kinds, counters):
+    """monitors on what the executor recorded.  Returns (model items, scenarios to re-execute).  A scenario marked retryable
+    (real goroutine overlap / process restart: infrastructure timing) whose monitors fail is re-executed once before anything is
+    reported (final=False: collect it; final=True: report)."""
+    items, retry = [], []
     for sc in scns:
         sc.unsettled, sc.handle_err = False, None
         steps, reports = scenario_steps(sc)
-        kinds[sc.kind] = kinds.get(sc.kind, 0) + 1
+        if not final or not getattr(sc, "retryable", False):
+            kinds[sc.kind] = kinds.get(sc.kind, 0) + 1
+        n_before = len(ck.violations)
+        defer = getattr(sc, "retryable", False) and not final
         if any(r["k"] == "EXECERR" for r in sc.recs) or (not sc.crashed and not sc.complete):
+            if defer:
+                retry.append(sc)
+                continue
             ck.violation("agent executor could not run scenario %s" % sc.id,
                          dict(sc.replay(), kind="executor"), found_input=False)
             continue
+        my_items = []
         # reports
         for idx, (local, vers, flag, rpt, real) in enumerate(reports):
-            n_reports += 1
+            if rpt.get("bg_open"):
+                # made while a batch was being executed by another goroutine: the local state the harness read just before is not
+                # "the state at the time of reporting"; these reports are there for the requests they deliver
+                continue
+            counters["reports"] += 1
             ck.count_case("R %s %s %s %s" % (json.dumps(local, sort_keys=True), sorted(vers.items()), flag, real), nontrivial=bool(local["shards"]))
             report_monitors(ck, sc, local, vers, flag, rpt, real, idx)
             recv = rpt["received"]
@@ -834,72 +1071,174 @@ def run(ck):
                 plog_sorted = sorted(map(tuple, obs["plog"]))
                 obs = dict(obs, plog=[list(p) for p in plog_sorted])
             term = "%s %s %s %s %s" % ("rcase" if real else "scase", coq_nhi(loc), cpairs(sorted(vers.items())), cbool(flag), coq_report(obs))
-            items.append(("report", term, sc, {"report_index": idx, "local_state": local, "drummer_versions": vers, "announced": flag, "received": rpt}))
+            my_items.append(("report", term, sc, {"report_index": idx, "local_state": local, "drummer_versions": vers, "announced": flag, "received": rpt}))
         if sc.kind.startswith("report"):
+            items.extend(my_items)
             continue
         # executions
         nreq = sum(1 for o in sc.ops if o[0] == "REQ")
         ck.count_case("X " + "\n".join(sc.lines()[1:]), nontrivial=nreq > 0)
         states = [r for r in sc.recs if r["k"] == "STATE"]
-        if sc.crashed != sc.expect_crash and sc.kind.startswith("tpl"):
+        if sc.crashed != sc.expect_crash and (sc.kind.startswith("tpl") or sc.kind == "overlap"):
             rp = sc.replay(); rp["kind"] = "monitor:fail-stop"
             rp["crash_log"] = getattr(sc, "crash_log", "")
             ck.violation("agent process %s in scenario %s" % ("died" if sc.crashed else "survived a request it must refuse by stopping", sc.kind), rp)
-            continue
-        if sc.handle_err:
-            rp = sc.replay(); rp["kind"] = "monitor:handle-error"
-            ck.violation("HandleMasterRequests failed: %s" % sc.handle_err, rp)
-        if not sc.crashed:
-            for (a, b) in sc.once_pairs:
-                if st_key(states[a]) != st_key(states[b]):
-                    rp = sc.replay(); rp["kind"] = "monitor:at-most-once"
-                    rp["before"], rp["after"] = states[a], states[b]
-                    ck.violation("a second HandleMasterRequests without a new delivery changed the NodeHost: requests were executed more than once", rp)
-            for (text, fn) in sc.expect:
-                ok = False
-                try:
-                    ok = bool(fn(states))
-                except Exception as ex:       # malformed observation = expectation not met
+        else:
+            if sc.handle_err:
+                rp = sc.replay(); rp["kind"] = "monitor:handle-error"
+                ck.violation("HandleMasterRequests failed: %s" % sc.handle_err, rp)
+            if not sc.crashed:
+                for (a, b) in sc.once_pairs:
+                    if st_key(states[a]) != st_key(states[b]):
+                        rp = sc.replay(); rp["kind"] = "monitor:at-most-once"
+                        rp["before"], rp["after"] = states[a], states[b]
+                        ck.violation("a second HandleMasterRequests without a new delivery changed the NodeHost: requests were executed more than once", rp)
+                for (text, fn) in sc.expect:
                     ok = False
-                if not ok:
-                    rp = sc.replay(); rp["kind"] = "monitor:effect"; rp["expectation"] = text
-                    ck.violation("intended effect missing: %s" % text, rp)
-        if not getattr(sc, "monitor_only", False):
-            items.append(("scenario", "scenario_ok %s" % clist(steps), sc, {"steps": steps}))
-    ck.cov["scenario_kinds"] = kinds
-    ck.cov["reports_checked"] = n_reports
-    ck.cov["process_crashes_observed"] = sum(1 for sc in scns if sc.crashed)
-    ck.cov["exhaustive"] = False
-    ck.cov["exhaustive_part"] = "report rule table for 1..2 hosted replicas (and 3 in thorough): relation x pending per replica, x announce flag x log info present"
-    for sc in scns[1:4]:
-        ck.sample({"scenario": sc.lines()[:12], "observed": sc.recs[:4]})
-    # known finding / leader flag: collapse the (many) leader-flag violations into one with the first replay
-    lf = [v for v in ck.violations if "reported leader flag" in v[0]]
-    if len(lf) > 1:
-        others = [v for v in ck.violations if "reported leader flag" not in v[0]]
-        ck.violations[:] = [(lf[0][0] + " (%d reports affected)" % len(lf), lf[0][1], True)] + others
-    # ---------------- model side
-    if not proofs_ok:
-        return
-    hdr = ("From Drummer.Model Require Import Base Agent AgentRun.\n"
+                    try:
+                        ok = bool(fn(states))
+                    except Exception as ex:       # malformed observation = expectation not met
+                        ok = False
+                    if not ok:
+                        rp = sc.replay(); rp["kind"] = "monitor:effect"; rp["expectation"] = text
+                        ck.violation("intended effect missing: %s" % text, rp)
+            if not getattr(sc, "monitor_only", False):
+                my_items.append(("scenario", "scenario_ok %s" % clist(steps), sc, {"steps": steps}))
+        if sc.kind == "overlap":
+            counters["overlap_deliveries"] += len(sc.overlaps)
+            counters["overlap_deliveries_during_batch"] += sum(1 for x in sc.overlaps if x)
+        if defer and len(ck.violations) > n_before:
+            del ck.violations[n_before:]
+            retry.append(sc)
+            continue
+        items.extend(my_items)
+    return items, retry
+
+
+COQ_HDR = ("From Drummer.Model Require Import Base Agent AgentRun.\n"
            "Definition cfg0 := mkCfg 10 1 false 0 0 0.\n"
            "Definition cases : list bool := [\n")
+
+
+def model_eval(ck, items, tag):
+    """the items the model disagrees with; None: coqc failed (reported)"""
+    if not items:
+        return []
     nsh = 16 if len(items) > 400 else 4
     shards = [items[i::nsh] for i in range(nsh)]
+    shards = [x for x in shards if x]
     jobs = []
     for si, shd in enumerate(shards):
         body = ";\n".join(t for (_, t, _, _) in shd)
-        jobs.append(("c18s%d" % si, hdr + body + "\n].\nDefinition M := Eval vm_compute in false_ix cases.\nPrint M.\n"))
+        jobs.append(("c18%s%d" % (tag, si), COQ_HDR + body + "\n].\nDefinition M := Eval vm_compute in false_ix cases.\nPrint M.\n"))
     outs = ck.coq_eval_par(jobs, timeout=3000)
     mism = []
     for si, (rc, out) in enumerate(outs):
         bad = parse_coq_list_of_nat(out, "M") if rc == 0 else None
         if bad is None:
             ck.violation("model evaluation failed (coqc)", {"kind": "coq-eval", "rc": rc, "out_tail": out[-3000:]}, found_input=False)
-            return
+            return None
         for j in bad:
             mism.append(shards[si][j])
-    ck.cov["traces_validated_against_impl"] = len(items)
+    return mism
+
+
+def run(ck):
+    ck.cov["rule"] = ("report rule: exhaustive table (Drummer's version older/equal/newer/shard unknown) x pending x announce flag x "
+                      "log info present for 1..2 hosted replicas (sampled for 3..4 in quick, exhaustive for 3 and 1500 samples of 4 in "
+                      "thorough) through SendNodeHostInfo on hand made NodeHostInfo values, plus real replicas (single member leader / three "
+                      "members without quorum / joined-pending / stopped) through node.go reportNodeHostInfo; request handling: template "
+                      "scenarios per decision-table row, per-shard order, two deliveries, second execution without delivery, fail-stop "
+                      "rows (process crash), and random batches of 1..5 requests over 2..4 shards mixing all kinds and fences "
+                      "(current, stale, future, 0), with replicas stopped / the NodeHost process restarted on its disk between batches; "
+                      "join / restore requests carry member lists (none / bootstrap record / current members after a membership change / "
+                      "a replaced member) for replicas launched alone, launched with three members, or joined; deliveries that overlap a "
+                      "running batch (HandleMasterRequests on its own goroutine, one shard blocked by a membership change without quorum; "
+                      "sizes of the overlapping deliveries relative to the running and to earlier batches). "
+                      "A case = one report or one scenario; non-trivial unless nothing is hosted / no request.")
+    tm = {}
+    t_ = time.time()
+    proofs_ok = ck.proofs(["theories/AgentRun.vo"])
+    tm["proofs_s"] = round(time.time() - t_, 1); t_ = time.time()
+    binp = ck.go_test_bin("client", ["client/zz_verif_agent_test.go"], tags="dragonboat_monkeytest")
+    tm["go_build_s"] = round(time.time() - t_, 1)
+    ck.cov["timing"] = tm
+    if binp is None:
+        return
+    rng = ck.rng
+    quick = ck.tier == "quick"
+    scns = []
+    scns.append(gen_report_table(ck, "rt0"))
+    for n in ((1, 2, 3, 4) if quick else (1, 2, 3, 4) * 6):
+        scns.append(gen_real_report(ck, "rr%d" % len(scns), n))
+    reps = 1 if quick else 12
+    for rep in range(reps):
+        for name in TEMPLATES:
+            scns.append(tpl(ck, "t%d-%s" % (rep, name), name))
+    for rep in range(1 if quick else 6):
+        for v in range(4):
+            sc = tpl(ck, "m%d-restore-members-%d" % (rep, v), "restore-members-%d" % v)
+            sc.retryable = True
+            scns.append(sc)
+    for rep in range(1 if quick else 3):
+        for name in CRASHES:
+            scns.append(tpl(ck, "c%d-%s" % (rep, name), name))
+    for i in range(8 if quick else 120):
+        sc = gen_overlap(ck, "o%d" % i)
+        sc.retryable = True
+        scns.append(sc)
+    for i in range(25 if quick else 700):
+        scns.append(gen_random(ck, "r%d" % i))
+    t0 = time.time()
+    params = run_executor(ck, binp, scns, "a")
+    if params is None:
+        return
+    ck.cov["executor_wall_s"] = tm["executor_s"] = round(time.time() - t0, 1)
+    ck.cov["params_read_from_code"] = params
+    # ---------------- collect, monitors
+    kinds = {}
+    counters = {"reports": 0, "overlap_deliveries": 0, "overlap_deliveries_during_batch": 0}
+    items, retry = assess(ck, scns, False, kinds, counters)
+    for sc in scns[1:4]:
+        ck.sample({"scenario": sc.lines()[:12], "observed": sc.recs[:4]})
+    # ---------------- model side (first pass), then the single re-execution of scenarios that depend on real timing
+    t_ = time.time()
+    mism = model_eval(ck, items, "s") if proofs_ok else []
+    tm["model_eval_s"] = round(time.time() - t_, 1)
+    if mism is None:
+        return
+    for m in mism:
+        if getattr(m[2], "retryable", False) and m[2] not in retry:
+            retry.append(m[2])
+    mism = [m for m in mism if m[2] not in retry]
+    n_items = len(items)
+    if retry:
+        ck.cov["re_executed_once"] = [sc.id for sc in retry]
+        for sc in retry:
+            sc.recs, sc.crashed = [], False
+        if run_executor(ck, binp, retry, "b") is None:
+            return
+        items2, _ = assess(ck, retry, True, kinds, counters)
+        mism2 = model_eval(ck, items2, "t") if proofs_ok else []
+        if mism2 is None:
+            return
+        mism += mism2
+        n_items += len(items2)
+    ck.cov["scenario_kinds"] = kinds
+    ck.cov["reports_checked"] = counters["reports"]
+    ck.cov["overlap_deliveries"] = counters["overlap_deliveries"]
+    ck.cov["overlap_deliveries_during_running_batch"] = counters["overlap_deliveries_during_batch"]
+    ck.cov["process_crashes_observed"] = sum(1 for sc in scns if sc.crashed)
+    ck.cov["exhaustive"] = False
+    ck.cov["exhaustive_part"] = "report rule table for 1..2 hosted replicas (and 3 in thorough): relation x pending per replica, x announce flag x log info present"
+    # known finding / leader flag: collapse the (many) leader-flag violations into one with the first replay
+    lf = [v for v in ck.violations if "reported leader flag" in v[0]]
+    if len(lf) > 1:
+        others = [v for v in ck.violations if "reported leader flag" not in v[0]]
+        ck.violations[:] = [(lf[0][0] + " (%d reports affected)" % len(lf), lf[0][1], True)] + others
+    if not proofs_ok:
+        return
+    ck.cov["traces_validated_against_impl"] = n_items
     if mism and not ck.violations:
         kind, term, sc, extra = mism[0]
         rp = sc.replay()
@@ -907,7 +1246,7 @@ def run(ck):
                    "disagreeing_scenarios": [m[2].id for m in mism][:50], "case_coq": term[:6000], "theorems": ck.cov.get("theorems")})
         rp.update({k: v for k, v in extra.items() if k != "steps"})
         if kind == "scenario":
-            rc, out = ck.coq_eval("c18dbg", hdr.replace("Definition cases : list bool := [\n", "") +
+            rc, out = ck.coq_eval("c18dbg", COQ_HDR.replace("Definition cases : list bool := [\n", "") +
                                   "Eval vm_compute in scenario_dbg %s.\n" % clist(extra["steps"]), timeout=600)
             rp["model_observations"] = out[-6000:]
         ck.violation("model and implementation disagree on %d %s case(s) but no property monitor failed; first: scenario %s (%s)"
